@@ -92,6 +92,8 @@ func buildPureContainer(cfg pureCfg) *restful.Container {
 		chain.ProcessFilter(req, resp)
 	}).To(h))
 	a.Route(a.PUT("/{id}").To(h))
+	a.Route(a.DELETE("/{id}").To(h))
+	a.Route(a.PATCH("/lit").To(h))
 	a.Route(a.GET("/{id}/sub/{x:*}").To(h))
 	a.Route(a.GET("/lit").To(h))
 	b := new(restful.WebService).Path("/b/{w}")
